@@ -121,3 +121,22 @@ def with_module_helpers(repo, fn, depth=3):
                     out.append(tgt)
                     todo.append((tgt, d + 1))
     return out
+
+
+def pattern_lint(res, prop, rule, fns, matcher, positive_src, describe, what):
+    """A rule whose expected count on a healthy tree is zero: `matcher(fn_node)` yields offending AST nodes. The embedded
+    positive example must match on every run (otherwise the matcher itself is broken: AnalysisError)."""
+    from ..model import AnalysisError
+    from ..report import mk_finding
+
+    pos = ast.parse(positive_src).body[0]
+    if not list(matcher(pos)):
+        raise AnalysisError(f"{rule} self-check: the embedded positive example is no longer recognised")
+    n = 0
+    for fn in fns:
+        for node in matcher(fn.node):
+            n += 1
+            res.inst(rule, f"{fn.fq}:{getattr(node, 'lineno', 0)} `{unparse(node, 50)}`", False)
+            res.add(mk_finding(prop, rule, fn, node, f"{fn.qualname}: {describe(node)}", role=unparse(node, 40)))
+    res.inst(rule, f"{len(fns)} functions scanned for {what} ({n} found; embedded positive example recognised)", True)
+    return n
